@@ -7,6 +7,7 @@ import GocoinV.Proofs.C19
 import GocoinV.Proofs.C19Effects
 import GocoinV.Proofs.C19Reopen
 import GocoinV.Proofs.C19Run
+import GocoinV.Proofs.C19Crash
 import GocoinV.Gen.QdbFacts
 namespace GocoinV.Props.C19
 open GocoinV GocoinV.Qdb GocoinV.QdbSpec GocoinV.Proofs.C19
@@ -225,9 +226,78 @@ example :
 --   lists with distinct keys and equal lookups have equal length); (ii) a second reopen in the same history (needs:
 --   the invariant holds again for the opened store — open's own removals do not change what open computes);
 --   (iii) volatile stores without unsaved changes, stores with NO_CACHE / not-loaded records (LoadData = false).
--- OPEN: qdb_durable — ∀ ops, ∀ n ≤ |effs|, openDB (crashFS fs0 db n) does not fail and every key holds its
---   last synced value or a later written one. fs_is_replay_of_effects (crash states = prefixes) is proved;
---   the recovery argument per prefix is only checked by the harness (all crash points x hits of every run).
+/-- Durability across a crash anywhere inside sync() / Close. Take any reachable state of a non-volatile store
+    (empty directory, any cached-sub-language history, side conditions as above) with pending changes. sync()
+    performs the file operations `syncEffs db`: [create <seq>.dat, write its header,] one Write per pending
+    record, [create qdbidx.log, write its header,] ONE Write of all collected index entries. Then:
+    (a) for EVERY n smaller than the number of these operations, the directory that exists after the first n
+        of them reopens (LoadData) without failure, and every key has exactly the value it has when the
+        directory from before sync() is reopened — its last synced value; no value that was never written, no
+        half-written record, whatever has already been appended to the data file;
+    (b) after the last operation the directory reopens without failure and every key has exactly the value of
+        the in-memory map (all pending changes became durable together);
+    (c) the directory after the last operation is the one the model continues with. -/
+theorem qdb_durable_sync_partial (load : Bool) (opts : Opts) (ops : List Op)
+    (ok : ∀ op ∈ ops, OpOK op) (fits : RunFits (openDB {} false load opts) ops)
+    (hsz : SizeOK (run (openDB {} false load opts) ops))
+    (hp : (run (openDB {} false load opts) ops).pending.isEmpty = false) (vol' : Bool) (opts' : Opts) :
+    let db := run (openDB {} false load opts) ops
+    (∀ n, n < (syncEffs db).length →
+      (openDB (db.fs.applyAll ((syncEffs db).take n)) vol' true opts').failed = none ∧
+      ∀ k, (ilookup k (openDB (db.fs.applyAll ((syncEffs db).take n)) vol' true opts').index).map valOf =
+           (ilookup k (openDB db.fs vol' true opts').index).map valOf) ∧
+    ((openDB (db.fs.applyAll (syncEffs db)) vol' true opts').failed = none ∧
+      ∀ k, (ilookup k (openDB (db.fs.applyAll (syncEffs db)) vol' true opts').index).map valOf = mget (mrun [] ops) k) ∧
+    (∃ L, sync db = (if L.extra > L.opts.forcedPerc * L.need / 100 then defrag L else L) ∧
+      L.fs = db.fs.applyAll (syncEffs db)) := by
+  intro db
+  have inv0 := fresh_inv load opts
+  have inv : DiskInv db := run_inv ops _ inv0 ok fits
+  obtain ⟨hc, habs⟩ := run_cached ops _ inv0.cached ok
+  have habs0 : absv (openDB {} false load opts) = [] := by cases load <;> rfl
+  rw [habs0] at habs
+  have hR0 : DirReadable db.fs := fun kr hkr => ⟨inv.dflags kr hkr, inv.dreads kr hkr⟩
+  obtain ⟨_, hold⟩ := open_readable db.fs hR0 vol' opts'
+  obtain ⟨L, hL, invL, absL, pL, _, _, _, hfsL⟩ := sync_logWritten db inv hp hsz.1
+  refine ⟨?_, ?_, L, hL, hfsL⟩
+  · intro n hn
+    obtain ⟨hR, hV⟩ := sync_prefix db inv n hn
+    obtain ⟨o1, o2⟩ := open_readable _ hR vol' opts'
+    refine ⟨o1, fun k => ?_⟩
+    rw [o2 k, hV k, ← hold k]
+  · rw [← hfsL]
+    obtain ⟨o1, o2⟩ := open_of_inv L invL pL vol' opts'
+    refine ⟨o1, fun k => ?_⟩
+    have hm : ∀ d : DB, mget (absv d) k = (ilookup k d.index).map valOf := by
+      intro d
+      unfold mget
+      rw [ilookup_absv, Option.map_map]
+      rfl
+    rw [o2 k, ← hm, absL, habs]
+
+/-- non-vacuity of qdb_durable_sync_partial: default thresholds, a sync in the middle, then three pending
+    changes (put, overwrite, delete of a synced key); sync() then has 3 file operations (two data writes, one log write) -/
+example :
+    let ops := [Op.put 1 [1, 2], .put 2 [5], .sync, .put 3 [], .put 1 [9, 9, 9], .del 2]
+    let db := run (openDB {} false true {}) ops
+    (∀ op ∈ ops, OpOK op) ∧ RunFits (openDB {} false true {}) ops ∧ SizeOK db ∧ db.pending.isEmpty = false ∧
+    (syncEffs db).length = 3 := by
+  refine ⟨?_, ?_, ?_, ?_, ?_⟩
+  · intro op hop
+    simp only [List.mem_cons, List.not_mem_nil, or_false] at hop
+    rcases hop with rfl | rfl | rfl | rfl | rfl | rfl <;> simp [OpOK]
+  · simp only [RunFits, OpFits, SizeOK]
+    decide
+  · simp only [SizeOK]
+    decide
+  · decide
+  · decide
+
+-- OPEN: qdb_durable in full — the same for crashes inside defrag() / writedatfile() / cleanupold() (the new
+--   snapshot becomes valid with one Write as long as it is smaller than the 1 MiB bufio buffer; for larger
+--   indexes a prefix of the snapshot could in principle end in bytes that look like the FFFFFFFF-seq-FINI trailer),
+--   for volatile stores, NO_CACHE records, and for histories containing earlier crashes/reopens. Those crash
+--   points are covered only by the harness (every vhook.Point x hit of every generated run).
 
 /-- non-vacuity of reopen_after_close_identity_partial: a two-record store -/
 example : IndexWF [(1, (newRec [1, 2, 3] 0)), (2 ^ 64 - 1, (newRec [] NO_BROWSE))] := by
